@@ -1,3 +1,4 @@
+import NasimModel.Generated.GeneratorOk
 import NasimModel.Model.Plan
 import NasimModel.Proofs.Inv
 /-!
